@@ -35,21 +35,27 @@ PROP = Prop(
                  "time is not part of C16's text: inputs whose tag count keeps internalReadTags looping (model: spin > 10^5 iterations) are "
                  "accepted as `err` or `hang` and counted in the distribution as dec.outcome.hang(tag-count-unbounded-loop); "
                  "Props.C16.tag_loop_steps_unbounded proves the step bound false (DESIGN 8-i, C22's concern)"],
-    partial="re-encode stability (decode(encode(decode b)) = decode b) and the linear bound on the size of the decoded value are checked "
-            "on every op by the driver (r=1, a=1 flags computed from the Go code) but not yet proved generically; proved: totality "
-            "(no panic, for every schema/version/byte string), ArrayLen-family bound, no allocation request above the input length.",
+    partial="reencode_stable_partial: decode(encode(decode b)) = decode b is proved under the extra hypothesis that the decoded value is in "
+            "the encoder's domain (enc = some bs; i.e. lengths below the prefix limits and re-encoded tag payloads below 2^32, which decoded "
+            "values satisfy but which is not proved generically). The key lemma (every decoded value is already in normal form) is proved "
+            "for every schema; the Go-side check r=1 is evaluated on every successfully decoded input. Everything else is proved at full "
+            "strength: totality, ArrayLen bound, value size <= weight(schema) * (|input|+1), min-width consumption.",
 )
 MANIFEST = {
     "text": "On the schema interpreter of C15 (schema regenerated from the definitions): Lean theorem, by mutual induction over types/fields, "
             "that for every schema, version and every byte string the decoder ends in ok or err and never reaches one of the modelled Go panics "
             "(slice bounds, make with a negative or over-cap length), that array lengths returned by the ArrayLen family never exceed the remaining "
-            "bytes and that no allocation request exceeds the input length. The tag-count loop is modelled as the code runs it with a step counter: "
+            "bytes, that no allocation request exceeds the input length, that the number of nodes of a decoded value (array slots, fields, unknown "
+            "tags) is at most weight(schema type) * (|input|+1) (using the per-version well-formedness of the regenerated schema: every array "
+            "element occupies >= 1 byte), that a decoded value is already in normal form and (under an encodability hypothesis, partial) that "
+            "re-encoding and decoding it again returns it unchanged. The tag-count loop is modelled as the code runs it with a step counter: "
             "its iteration count equals the count read from the input (so a linear step bound is false: proved), an invalidated reader stays "
             "invalidated, and the early-exit model agrees with the loop. A differential run (mutational + structure-aware bytes, every type and "
             "version, ReadFrom and UnsafeReadFrom under recover/deadline) ties the model to the Go decoders and evaluates the property text on "
             "their output: no panic, reachable memory <= 4 KiB + 1024*|input|, re-encode + decode stable.",
-    "note": "Trusted: as C15, plus the early-exit modelling decision outside the tag loop and deepSize() as the memory measure. Re-encode stability "
-            "and the value-size bound are tested on every op, not proved (partial). The unbounded tag-count loop (time) is recorded, not counted "
+    "note": "Trusted: as C15, plus the early-exit modelling decision outside the tag loop and deepSize() as the memory measure on the Go side (the "
+            "theorem counts value-tree nodes; bytes per node are the Go struct sizes, observed max 64 bytes of value per input byte). Re-encode stability "
+            "is proved modulo encodability of decoded values (partial) and tested on every op. The unbounded tag-count loop (time) is recorded, not counted "
             "as a C16 violation.",
     "technique": "Lean 4 proof (totality of the generic schema decoder by mutual induction; step-counting model of the tag loop) with a "
                  "differential fuzz run against ReadFrom/UnsafeReadFrom of every generated type and version",
